@@ -1,8 +1,24 @@
 use super::scratch::DecoderScratch;
+use crate::common::MAX_BLOCK_SIZE;
 use crate::decoding::errors::ExecuteSequencesError;
 
 /// Take the provided decoder and execute the sequences stored within
 pub fn execute_sequences(scratch: &mut DecoderScratch) -> Result<(), ExecuteSequencesError> {
+    // A block regenerates all of its literals plus every match. The format limits that to
+    // MAX_BLOCK_SIZE; check before expanding anything so hostile input cannot force huge buffers.
+    let regenerated_size = scratch.literals_buffer.len() as u64
+        + scratch
+            .sequences
+            .iter()
+            .map(|seq| u64::from(seq.ml))
+            .sum::<u64>();
+    if regenerated_size > u64::from(MAX_BLOCK_SIZE) {
+        return Err(ExecuteSequencesError::BlockTooBig {
+            regenerated_size,
+            max: MAX_BLOCK_SIZE,
+        });
+    }
+
     let mut literals_copy_counter = 0;
     let old_buffer_size = scratch.buffer.len();
     let mut seq_sum = 0;
